@@ -102,8 +102,12 @@ class LiteDRAMAXI2NativeW(Module):
         # Accept and send command to the controller only if:
         # - Address & Data request are *both* valid.
         # - Data buffer is not empty.
+        # - A response slot is free for the burst (its ID is queued with the first beat's command and
+        #   its response waits in resp_buffer until the master takes it).
+        can_respond = Signal()
+        self.comb += can_respond.eq(~aw.first | ((id_buffer.level + resp_buffer.level) < buffer_depth))
         self.comb += [
-            self.cmd_request.eq(aw.valid & can_write),
+            self.cmd_request.eq(aw.valid & can_write & can_respond),
             If(self.cmd_request & self.cmd_grant,
                 port.cmd.valid.eq(1),
                 port.cmd.last.eq(aw.last),
